@@ -56,7 +56,7 @@ def gen_case(streams, tier):
                        awk_exclude=('tmp', 'a b', 'é'), awk_internal=0.3,
                        class_pool=['bit', 'small', 'mid', 'w32', 'w64', 'w128'],
                        mem_wide_aw=0.0, mem_aw=(1, 5), rom_aw_max=4, regs=(0, 3),
-                       dup_mem_name_prob=0.25, roms=(0, 2), awk_pair_prob=0.3,
+                       dup_mem_name_prob=0.25, roms=(0, 2), awk_pair_prob=0.3, share_romdata_prob=0.5,
                        inputs=g.choice([(1, 4), (1, 4), (0, 0)]))
     script = gen.gen_script(g, cfg)
     stage = None
